@@ -164,8 +164,13 @@ func HarnessC01MultipleOfEnum() {
 // F3: string keywords: min/maxLength in code points, pattern, format through the registry
 func HarnessC01String() {
 	s := spec.Schema{}
-	if verifBool() {
+	switch verifChoose(4) {
+	case 1:
 		s.Type = spec.StringOrArray{"string"}
+	case 2: // a type that a string instance does not have: a format next to it must not excuse the mismatch
+		s.Type = spec.StringOrArray{[]string{"boolean", "array", "object", "null"}[verifChoose(4)]}
+	case 3:
+		s.Type = spec.StringOrArray{"string", "null"}
 	}
 	if verifBool() {
 		s.MinLength = ptrI(verifPickInt(0, 1, 2, 3))
